@@ -16,6 +16,14 @@ import (
 
 var vhCtx = context.Background()
 
+// vhMaxPrefix is the number of state-building operations before the probe operation.
+func vhMaxPrefix() int {
+	if verifrt.Thorough() {
+		return 3
+	}
+	return 2
+}
+
 // vhHash is a one-byte block hash, 'A' or 'B', picked by the solver.
 func vhHash(name string) []byte { return []byte{'A' + (verifrt.U8(name) & 1)} }
 
